@@ -63,6 +63,9 @@ def cells():
     # two listeners: the request in flight across the HUP is on one of them, the short requests go to the first
     for kind, which in itertools.product(KINDS, [0, 1]):
         yield {"kind": kind, "bind": "unix", "start_workers": 1, "pre": [], "workers": [1], "hist": NHIST + which, "two_binds": which}
+    # two listeners of different kinds (a TCP address and a unix path in one bind list)
+    for kind in KINDS:
+        yield {"kind": kind, "bind": "tcp", "start_workers": 1, "pre": [], "workers": [2], "hist": NHIST + 3, "two_binds": 0}
 
 
 def extra_cases(tier, seed, shard, nshards):
@@ -77,14 +80,14 @@ def extra_cases(tier, seed, shard, nshards):
                 picked.append(c)
         two = [c for c in cs if c.get("two_binds") is not None or c.get("rebind")]       # the two-listener and moved-listener cells are all kept
         picked = [c for c in picked if c not in two]
-        cs = two + (picked + [c for c in cs if c not in picked and c not in two])[:36 - len(two)]
+        cs = two + (picked + [c for c in cs if c not in picked and c not in two])[:40 - len(two)]
     for i, c in enumerate(cs):
         if i % nshards == shard:
             j = int(hashlib.sha1(("%d-%d" % (seed, i)).encode()).hexdigest()[:4], 16) / 65535.0
             yield dict(c, gap=round(0.05 + 0.25 * j, 2) if (c.get("slow_boot") or c.get("slow_reload")) else round(0.2 + 0.8 * j, 2))
 
 
-EXHAUSTIVE_NOTE = "(+ 8 two-listener cells) thorough: all %d cells (4 classes x %d bind spellings x %d histories); quick: a seeded slice of up to 36 covering every class x bind and every history" % (4 * len(BINDS) * NHIST, len(BINDS), NHIST)
+EXHAUSTIVE_NOTE = "(+ 8 two-listener cells) thorough: all %d cells (4 classes x %d bind spellings x %d histories); quick: a seeded slice of up to 40 covering every class x bind and every history" % (4 * len(BINDS) * NHIST, len(BINDS), NHIST)
 
 
 class Load(threading.Thread):
